@@ -117,12 +117,24 @@ func toOperation(db *dyn.DB, table, uuid string, op RowOp) ovsdb.Operation {
 
 // genRowOp draws a well-typed row operation on a row whose current value is
 // cur (nil if absent) and original value orig (to bias towards restoring).
+// rowBigInts: integers at the edge of what a float64 holds exactly (2^53, 2^53+1, 2^53+2: three integers, two
+// float64s) are among the values of plain integer columns. Set by the drivers whose path keeps integers exact.
+var rowBigInts = false
+
+func rowValue(g *gen.G, c val.Col, u, maxn int) val.Val {
+	v := g.Value(c, u, maxn)
+	if rowBigInts && c.K == 'a' && c.KT == 'i' && len(c.Enum) == 0 && g.Chance(0.3) {
+		v = val.VA(val.Int(int64(1)<<53 + int64(g.Intn(3))))
+	}
+	return v
+}
+
 func genRowOp(g *gen.G, t *dyn.Table, cur, orig map[string]val.Val, u, maxn int, allowDelete bool) RowOp {
 	if cur == nil {
 		row := map[string]val.Val{}
 		for _, c := range t.Cols {
 			if g.Chance(0.5) {
-				row[c.Name] = g.Value(c, u, maxn)
+				row[c.Name] = rowValue(g, c, u, maxn)
 			}
 		}
 		return RowOp{Kind: "insert", Row: row}
@@ -145,7 +157,7 @@ func genRowOp(g *gen.G, t *dyn.Table, cur, orig map[string]val.Val, u, maxn int,
 			case g.Chance(0.1):
 				row[c.Name] = cur[c.Name]
 			default:
-				row[c.Name] = g.Value(c, u, maxn)
+				row[c.Name] = rowValue(g, c, u, maxn)
 			}
 		}
 		return RowOp{Kind: "update", Row: row}
